@@ -19,7 +19,7 @@ import ast
 from fractions import Fraction
 
 from .. import astutil as A
-from ..alg import Interp, Obj, Poly, PyFunc, Undecided, fn, to_poly, _ATOMS
+from ..alg import AutoRegion, Interp, Obj, Poly, PyFunc, Undecided, fn, to_poly, _ATOMS
 
 EXPLANATION = (
     "AsymptoticCalculator.teststatistic, .distributions, .pvalues and AsymptoticTestStatDistribution.pvalue/"
@@ -48,7 +48,7 @@ def run(ctx):
     r2 = ctx.rule("C07.R2", "CMP: the qtilde branch predicate compares sqrt(q) with sqrt(qA) and its true side is the square-root form", "CMP", floor=2)
     r3 = ctx.rule("C07.R3", "STAB: no `1 - cdf(...)` / `1 - normal_cdf(...)` on the p-value path of infer/calculators.py", "STAB", floor=1)
     r4 = ctx.rule("C07.R4", "DEP: clipped_normal sets cutoff = -sqrt(qA) for both distributions, normal -inf, other values raise; expected_value clips at the cutoff; pvalue is NaN below the cutoff", "DEP", floor=6)
-    r5 = ctx.rule("C07.R5", "TABLE: expected band evaluated at n_sigma = [2, 1, 0, -1, -2] (strictly decreasing, symmetric) on the background-only distribution", "TABLE", floor=2)
+    r5 = ctx.rule("C07.R5", "BAND (interpreted): expected_pvalues on real AsymptoticTestStatDistribution objects (normal and clipped base, sqrt(qA) above and below 1 and 2) returns [[CLsb], [CLb], [CLs]] with, at position i of N = 2, 1, 0, -1, -2, CLsb = Phi(-(t_N + sqrt qA)), CLb = Phi(-t_N), CLs their ratio, t_N = max(N, cutoff) the background-only expected statistic", "BAND", floor=6)
     r6 = ctx.rule("C07.R6", "ORDER: distributions() raises unless teststatistic() stored sqrt(qA) before", "ORDER", floor=1)
 
     s, a = fn("sqrt", Poly.atom("Q")), fn("sqrt", Poly.atom("QA"))
@@ -89,7 +89,7 @@ def run(ctx):
         attrs = {}
         ienv = {"data": Obj("data"), "pdf": Obj("pdf"), "init_pars": Obj("init"), "par_bounds": Obj("bounds"), "fixed_params": Obj("fixed"), "test_stat": stat_name, "calc_base_dist": "normal"}
         Interp(ienv, attrs, {}, cls_name=calc.name, externals=ext).run(A.strip_docstring(calc.methods["__init__"].node.body))
-        reg2 = dict(region)
+        reg2 = type(region)(region, region.sign) if hasattr(region, "sign") else dict(region)
         reg2.update({str(s_o): Fraction(1), str(a_o): Fraction(2)})
         Interp({"poi_test": Poly.atom("mu_other"), "utils": Obj("utils")}, attrs, reg2, cls_name=calc.name, externals=ext).run(A.strip_docstring(ts_m.node.body))
         it = Interp({"poi_test": Poly.atom("mu_test"), "utils": Obj("utils")}, attrs, reg2, cls_name=calc.name, externals=ext)
@@ -146,10 +146,26 @@ def run(ctx):
             ctx.unrecognised(r4, di_m, "distributions[unknown]", str(e))
 
     # ---- R1 composition
+    class _FitSign(AutoRegion):
+        """Everything the code could read off the FITS (best-fit POI, nuisance parameters ...) is an unconstrained
+        quantity: it takes a small value of the given sign, so a branch decided by it shows up as a formula that
+        changes with the sign while q and qA stay put."""
+
+        def __init__(self, base, sign):
+            super().__init__(base)
+            self.sign = sign
+
+        def __contains__(self, k):
+            return dict.__contains__(self, k) or k not in _ATOMS
+
+        def __missing__(self, k):
+            return Fraction(self.sign, 1000)
+
     cases = []
     for stat in ("q", "q0", "qtilde"):
         for label, reg in (("sqrtq<sqrtqA", {sname: Fraction(1), aname: Fraction(2)}), ("sqrtq>sqrtqA", {sname: Fraction(3), aname: Fraction(2)})):
-            cases.append((stat, label, reg))
+            for sign in (1, -1):
+                cases.append((stat, label + (", fitted values > 0" if sign > 0 else ", fitted values < 0"), _FitSign(reg, sign)))
     results = {}
     for stat, label, reg in cases:
         site = f"{CALC}::AsymptoticCalculator[{stat}, {label}]"
@@ -164,7 +180,8 @@ def run(ctx):
         if to_poly(attrs.get("sqrtqmuA_v")) != a:
             ctx.violated(r1, ts_m, f"teststatistic[{stat}] stores sqrtqmuA_v", "the value stored for the distributions is not sqrt of the Asimov statistic", expected=str(a), found=str(attrs.get("sqrtqmuA_v")))
         results[(stat, label)] = T
-        false_branch = stat == "qtilde" and label == "sqrtq>sqrtqA"
+        results[(stat, label.split(",")[0])] = T
+        false_branch = stat == "qtilde" and label.startswith("sqrtq>sqrtqA")
         want_sb = -(Q + QA) / (2 * a) if false_branch else -s
         want_b = -(Q - QA) / (2 * a) if false_branch else -(s - a)
         region = dict(reg)
@@ -259,29 +276,40 @@ def run(ctx):
     except Undecided as e:
         ctx.unrecognised(r4, pv_m, "pvalue", str(e))
 
-    # ---- R5 band
+    # ---- R5 band: expected_pvalues interpreted on real distribution objects
+    from ..objmodel import Instance, World
     ep = calc.methods["expected_pvalues"]
-    band = None
-    ev_calls = [c for c in A.calls_in(ep.node) if A.call_attr(c) == "expected_value"]
-    for n in ast.walk(ep.node):
-        if isinstance(n, ast.comprehension):
-            v = A.const_value(n.iter)
-            if isinstance(v, (list, tuple)) and len(v) >= 3 and all(isinstance(x, (int, float)) for x in v):
-                band = (list(v), n)
-    if band is None or not ev_calls:
-        ctx.unrecognised(r5, ep, "expected_pvalues", "band literal or expected_value call not found")
-    else:
-        v, node = band
-        if v == [2, 1, 0, -1, -2]:
-            ctx.holds(r5, f"{CALC}::expected_pvalues band", str(v))
-        else:
-            ctx.violated(r5, ep, node, "the expected band is not evaluated at n_sigma = 2, 1, 0, -1, -2 in that order (results are reported as -2..+2 sigma)", expected="[2, 1, 0, -1, -2]", found=str(v), node=node.iter)
-        recv = A.dotted(ev_calls[0].func.value)
-        params = A.params_of(ep.node)
-        if recv == "bkg_only_distribution" or (len(params) >= 3 and recv == params[2]):
-            ctx.holds(r5, f"{CALC}::expected_pvalues", "expected values taken from the background-only distribution")
-        else:
-            ctx.violated(r5, ep, ev_calls[0], "expected band is not computed from the background-only distribution", found=str(recv), node=ev_calls[0])
+    cdf = lambda x: fn("normal_cdf", to_poly(x))
+    for aval in (Fraction(5, 2), Fraction(1, 2), Fraction(3, 2)):
+        for base, cut in (("normal", Poly.atom("NEGINF")), ("clipped_normal", -a)):
+            label = f"expected_pvalues[{base}, sqrt(qA)={aval}]"
+            reg = {aname: aval, "NEGINF": NEG, "QA": aval ** 2}
+            try:
+                w = World({}, region=reg)
+                w.add_class(calc).add_class(dist)
+                sbd = w.new(dist, [shift_sb, cut], {})
+                bd = w.new(dist, [shift_b, cut], {})
+                out = w.call_method(Instance(calc), "expected_pvalues", [sbd, bd])
+            except Undecided as e:
+                ctx.unrecognised(r5, ep, label, f"not interpretable: {e}")
+                continue
+            if not (isinstance(out, (list, tuple)) and len(out) == 3 and all(isinstance(r_, (list, tuple)) and len(r_) == 5 for r_ in out)):
+                ctx.violated(r5, ep, label, "the expected p-values are not three lists (CLsb, CLb, CLs) of five entries (-2 ... +2 sigma)", expected="[[5 x CLsb], [5 x CLb], [5 x CLs]]", found=A.short(ast.parse(repr([len(r_) if isinstance(r_, (list, tuple)) else '?' for r_ in out]) if isinstance(out, (list, tuple)) else "'?'"), 60))
+                continue
+            cutv = cut.evalf(reg)
+            bad = None
+            for i_, N in enumerate((2, 1, 0, -1, -2)):
+                tN = Poly.const(N) if Fraction(N) >= cutv else cut
+                wsb, wb = cdf(-(tN + a)), cdf(-tN)
+                got = [to_poly(out[0][i_]), to_poly(out[1][i_]), to_poly(out[2][i_])]
+                for nm, g, wv in zip(("CLsb", "CLb", "CLs"), got, (wsb, wb, wsb / wb)):
+                    if g != wv and bad is None:
+                        bad = (nm, N, g, wv)
+            if bad is None:
+                ctx.holds(r5, f"{CALC}::{label}", "Phi(-(t_N + sqrt qA)), Phi(-t_N), ratio; t_N = max(N, cutoff), N = 2, 1, 0, -1, -2")
+            else:
+                nm, N, g, wv = bad
+                ctx.violated(r5, ep, label, f"expected {nm} at N = {N} (entry for {-N:+d} sigma) is {g}: the N-sigma expected value is the p-value of the background-only distribution's expected test statistic t_N = max(N, cutoff) under the respective distribution", expected=str(wv), found=str(g))
 
     # ---- R6
     first = A.strip_docstring(di_m.node.body)[0]
